@@ -496,6 +496,7 @@ func c08histories(env sched.Env) *sched.Report {
 						sched.Progress(cs)
 						sig, detail, st := c08run(cs)
 						rep.Execs++
+						sched.Progress(nil)
 						rep.Transitions++
 						if sig != "" {
 							rep.Outcomes["violation: "+sig]++
